@@ -20,6 +20,7 @@ mod spec;
 mod sut;
 mod table;
 mod twin;
+mod usercodec;
 mod value;
 
 use serde_json::{json, Value as J};
